@@ -4,6 +4,7 @@ C26 — loop blocks iterate to a fixpoint with correct windowing.
 Model: `HvTick.Model.Loop` (`emit_loop_gate`: root loop = `if`, nested loop = `while`, gate = non-lazy entry
 handoffs ∨ non-lazy delayed back buffers of the loop, swap code at the end of the body, exit handoff accumulating
 over iterations).  The `while` is the generic `iterate gate step`; its theorems hold for every gate and every body.
+Finding F26 (a loop fed only through `batch_lazy` ran unconditionally) is fixed in /repo; the model is the fixed code.
 -/
 import HvTick.Model.Loop
 import HvTick.Gen.FloTypes
@@ -125,17 +126,16 @@ theorem loop_terminates_iff_gate_false {σ : Type} (gate : σ → Bool) (step : 
 
 /-! ### how `runNodes` treats a loop node -/
 
-/-- the three shapes `emit_loop_gate` emits, as one function of the loop's state: unconditional body, `if`, `while` -/
-def loopFin (uncond root : Bool) (gate : LSt → Bool) (step : LSt → Option LSt) (f : Nat) (st0 : LSt) : Option LSt :=
-  if uncond then step st0
-  else if root then (if gate st0 then step st0 else some st0)
+/-- the two gated shapes `emit_loop_gate` emits, as one function of the loop's state: `if` (root), `while` (nested) -/
+def loopFin (root : Bool) (gate : LSt → Bool) (step : LSt → Option LSt) (f : Nat) (st0 : LSt) : Option LSt :=
+  if root then (if gate st0 then step st0 else some st0)
   else (iterate gate step f st0).map (·.1)
 
 /-- how `runNodes` treats a loop node -/
 theorem loop_node_eq (f d : Nat) (id : Nat) (ml : Bool) (ex : Option Bool) (body ns : List Node)
     (env : Env) (b s2 : List Int) :
     runNodes (f + 1) d (.loop id ml ex body :: ns) env b s2 =
-      match loopFin (noGateChecks ml ex (directDelays body)) (decide (d = 0))
+      match loopFin (decide (d = 0))
           (fun st : LSt => gateOf ((ml, st.main) :: (match ex with | some l => [(l, st.extra)] | none => []))
             (directDelays body) st.env)
           (fun st : LSt =>
@@ -151,44 +151,27 @@ theorem loop_node_eq (f d : Nat) (id : Nat) (ml : Bool) (ex : Option Bool) (body
 
 /-- **A root-level loop runs at most once per tick**: whatever the gate and the body, the root shape executes
 `step` (the body) at most once — it is `step st0` or `st0` itself. -/
-theorem root_loop_at_most_once_per_tick (uncond : Bool) (gate : LSt → Bool) (step : LSt → Option LSt) (f : Nat)
-    (st0 : LSt) :
-    loopFin uncond true gate step f st0 = step st0 ∨ loopFin uncond true gate step f st0 = some st0 := by
+theorem root_loop_at_most_once_per_tick (gate : LSt → Bool) (step : LSt → Option LSt) (f : Nat) (st0 : LSt) :
+    loopFin true gate step f st0 = step st0 ∨ loopFin true gate step f st0 = some st0 := by
   unfold loopFin
-  cases uncond <;> cases gate st0 <;> simp
+  cases gate st0 <;> simp
 
-/-- … and with at least one gate condition it runs iff the gate holds at the start of the tick -/
+/-- … and it runs iff the gate holds at the start of the tick -/
 theorem root_loop_runs_iff_gate (gate : LSt → Bool) (step : LSt → Option LSt) (f : Nat) (st0 : LSt) :
-    loopFin false true gate step f st0 = if gate st0 then step st0 else some st0 := by
+    loopFin true gate step f st0 = if gate st0 then step st0 else some st0 := by
   simp [loopFin]
 
-/-- a nested loop with at least one gate condition is the `while` (`iterate`) — so `nested_loop_runs_while_gate`
-and `loop_terminates_iff_gate_false` apply to it -/
+/-- a nested loop is the `while` (`iterate`) — so `nested_loop_runs_while_gate` and
+`loop_terminates_iff_gate_false` apply to it -/
 theorem nested_loop_is_while (gate : LSt → Bool) (step : LSt → Option LSt) (f : Nat) (st0 : LSt) :
-    loopFin false false gate step f st0 = (iterate gate step f st0).map (·.1) := by
+    loopFin false gate step f st0 = (iterate gate step f st0).map (·.1) := by
   simp [loopFin]
 
-/-- the full clause "a loop stops when none of its non-lazy inputs / delayed data is non-empty" -/
-def loopStopsWithoutNonLazyDataStatement : Prop :=
-  ∀ (uncond root : Bool) (gate : LSt → Bool) (step : LSt → Option LSt) (f : Nat) (st0 : LSt),
-    gate st0 = false → loopFin uncond root gate step f st0 = some st0
-
-/-- **Refuted by the code that exists (finding F26)**: a loop all of whose entries are `batch_lazy` (and that has no
-non-lazy delayed handoff) has an empty list of gate conditions, and `emit_loop_gate` then emits its body
-unconditionally: it runs although the gate is false. -/
-theorem loop_stops_without_nonlazy_data_refuted : ¬ loopStopsWithoutNonLazyDataStatement := by
-  intro h
-  have := h true true (fun _ => false) (fun st => some { st with exit := [1] }) 0 ⟨[], [], [], [], []⟩ rfl
-  simp [loopFin] at this
-
-/-- the concrete witness: root loop fed only through `batch_lazy`, no data at all — the body still runs (marker) -/
-theorem all_lazy_loop_runs_unconditionally_refuted :
-    (runNodes 10 0 [.loop 0 true none [.tap 0]] [] [] []).map (·.2.2) = some [(100, [1]), (0, [])] := by decide
-
-/-- with at least one gate condition the clause holds: gate false ⇒ the loop does not run -/
-theorem loop_stops_without_nonlazy_data_partial (root : Bool) (gate : LSt → Bool) (step : LSt → Option LSt)
+/-- **A loop stops (does not run) when none of its non-lazy entry inputs / delayed data is non-empty**: gate false
+⇒ the state is handed on untouched, root or nested. -/
+theorem loop_stops_without_nonlazy_data (root : Bool) (gate : LSt → Bool) (step : LSt → Option LSt)
     (f : Nat) (st0 : LSt) (hg : gate st0 = false) :
-    loopFin false root gate step f st0 = some st0 := by
+    loopFin root gate step f st0 = some st0 := by
   cases root <;> cases f <;> simp [loopFin, iterate, hg]
 
 /-- only non-lazy entries and non-lazy delayed buffers open the gate: with every entry lazy or empty and every
@@ -209,6 +192,30 @@ theorem gate_opens (entries : List (Bool × List Int)) (delays : List (Nat × Bo
     gateOf entries delays env = true ↔
       (∃ e ∈ entries, e.1 = false ∧ e.2 ≠ []) ∨ (∃ d ∈ delays, d.2 = false ∧ (env.get d.1).back ≠ []) := by
   simp [gateOf, List.any_eq_true, List.isEmpty_iff]
+
+/-- **A loop fed only through `batch_lazy` never fires on its own** (finding F26, fixed in /repo: before the fix the
+empty list of gate conditions made `emit_loop_gate` emit the body unconditionally): with a lazy main entry, a lazy
+(or no) second entry and only lazy delayed handoffs, the loop does not run, whatever data is waiting. -/
+theorem all_lazy_loop_never_runs (root : Bool) (ex : Option Bool) (delays : List (Nat × Bool))
+    (step : LSt → Option LSt) (f : Nat) (st0 : LSt) (hex : ex ≠ some false) (hd : ∀ d ∈ delays, d.2 = true) :
+    loopFin root
+      (fun st : LSt => gateOf ((true, st.main) :: (match ex with | some l => [(l, st.extra)] | none => [])) delays st.env)
+      step f st0 = some st0 := by
+  apply loop_stops_without_nonlazy_data
+  apply gate_ignores_lazy
+  · intro e he
+    cases ex with
+    | none => simp at he; left; rw [he]
+    | some l =>
+      cases l with
+      | false => exact absurd rfl hex
+      | true => simp at he; rcases he with rfl | rfl <;> exact Or.inl rfl
+  · intro d hdm; exact Or.inl (hd d hdm)
+
+/-- the witness of F26 on the model: root loop fed only through `batch_lazy`, data waiting — the body does not run
+(no marker), the exit buffer is empty -/
+example :
+    (runNodes 10 0 [.loop 0 true none [.tap 0], .tap 1] [] [1, 2] []).map (·.2.2) = some [(1, [])] := by decide
 
 /-! ### `defer_tick` inside a loop -/
 
@@ -337,23 +344,21 @@ theorem aux_iterate_env (p : Nat) (gate : LSt → Bool) (step : LSt → Option L
       · simp at h
     · simp only [Option.some.injEq, Prod.mk.injEq] at h; rw [h.1]
 
-theorem aux_loopFin_env (p : Nat) (uncond root : Bool) (gate : LSt → Bool) (step : LSt → Option LSt)
+theorem aux_loopFin_env (p : Nat) (root : Bool) (gate : LSt → Bool) (step : LSt → Option LSt)
     (hstep : ∀ st st1, step st = some st1 → st1.env.get p = st.env.get p) (f : Nat) (st0 st : LSt)
-    (h : loopFin uncond root gate step f st0 = some st) : st.env.get p = st0.env.get p := by
+    (h : loopFin root gate step f st0 = some st) : st.env.get p = st0.env.get p := by
   unfold loopFin at h
   split at h
-  · exact hstep _ _ h
   · split at h
-    · split at h
-      · exact hstep _ _ h
-      · simp only [Option.some.injEq] at h; rw [h]
-    · cases hi : iterate gate step f st0 with
-      | none => simp [hi] at h
-      | some r =>
-        obtain ⟨s', n⟩ := r
-        simp only [hi, Option.map_some, Option.some.injEq] at h
-        subst h
-        exact aux_iterate_env p gate step hstep f st0 s' n hi
+    · exact hstep _ _ h
+    · simp only [Option.some.injEq] at h; rw [h]
+  · cases hi : iterate gate step f st0 with
+    | none => simp [hi] at h
+    | some r =>
+      obtain ⟨s', n⟩ := r
+      simp only [hi, Option.map_some, Option.some.injEq] at h
+      subst h
+      exact aux_iterate_env p gate step hstep f st0 s' n hi
 
 /-- **Frame**: running a block changes no delayed handoff that the block does not mention. -/
 theorem frame (p : Nat) (f d : Nat) (ns : List Node) (env : Env) (b s2 : List Int) (r : Env × List Int × Outs)
@@ -393,7 +398,7 @@ theorem frame (p : Nat) (f d : Nat) (ns : List Node) (env : Env) (b s2 : List In
             simp only [hr, Option.map_some, Option.some.injEq] at h
             have hr1 : r.1 = r'.1 := by rw [← h]
             rw [hr1, ih d ns st.env st.exit r' hr hm.2]
-            refine aux_loopFin_env p _ _ _ _ ?_ k _ st hfin
+            refine aux_loopFin_env p _ _ _ ?_ k _ st hfin
             intro s0 s1 hs
             cases hb : runNodes k (d + 1) body s0.env (s0.main ++ s0.extra) s2 with
             | none => simp [hb] at hs
